@@ -169,6 +169,12 @@ func isRuntimeFault(r interface{}) bool {
 
 // encode runs the real encoder; returns bytes, "raise" or "fault".
 func doEncode(out netty.OutboundHandler, payload []byte, carrier int) (res []byte, status string) {
+	return doEncodeOwned(out, payload, carrier, nil)
+}
+
+// owned != nil: the []byte carrier is this very slice (a sub-slice of a larger buffer of the caller's,
+// with spare capacity behind it) instead of a private copy of payload
+func doEncodeOwned(out netty.OutboundHandler, payload []byte, carrier int, owned []byte) (res []byte, status string) {
 	defer func() {
 		if r := recover(); r != nil {
 			if isRuntimeFault(r) {
@@ -181,7 +187,11 @@ func doEncode(out netty.OutboundHandler, payload []byte, carrier int) (res []byt
 	var msg netty.Message
 	switch carrier {
 	case 0:
-		msg = append([]byte(nil), payload...)
+		if owned != nil {
+			msg = owned
+		} else {
+			msg = append([]byte(nil), payload...)
+		}
 	case 1:
 		msg = string(payload)
 	case 2:
@@ -353,6 +363,9 @@ func genSpec(rng *rand.Rand) codecSpec {
 		}
 		if rng.Intn(2) == 0 {
 			s.strip = rng.Intn(fl + s.offset + 3)
+			if rng.Intn(3) == 0 { // reaching well into the body (a sub-header that is stripped with the length field)
+				s.strip = fl + s.offset + 1 + rng.Intn(8)
+			}
 		}
 		if rng.Intn(20) == 0 { // invalid configurations
 			s.fieldLen = []int{0, 3, 5, 16}[rng.Intn(4)]
@@ -427,6 +440,12 @@ func runC04(prop string, seed int64, count int) {
 		// encode a few payloads
 		var stream []byte
 		npl := 1 + rng.Intn(4)
+		// 1/3: the payloads of the case are consecutive records of one buffer of the caller's, written as
+		// buf[a:b], buf[b:c], … (each slice has the following records in its spare capacity)
+		batch := rng.Intn(3) == 0
+		var arena []byte
+		var spans [][2]int
+		var origs [][]byte
 		for i := 0; i < npl; i++ {
 			n := pickLen(rng, s)
 			if s.kind == "fx" && rng.Intn(4) != 0 && s.n > 0 {
@@ -443,6 +462,15 @@ func runC04(prop string, seed int64, count int) {
 					p = append(p, s.delim[0])
 				}
 			}
+			if batch {
+				if n > 2000 {
+					p = p[:2000]
+				}
+				spans = append(spans, [2]int{len(arena), len(arena) + len(p)})
+				arena = append(arena, p...)
+				origs = append(origs, append([]byte(nil), p...))
+				continue
+			}
 			carrier := rng.Intn(6)
 			enc, st := doEncode(out, p, carrier)
 			if st == "ok" {
@@ -450,6 +478,18 @@ func runC04(prop string, seed int64, count int) {
 				stream = append(stream, enc...)
 			} else {
 				emit("%s enc %s %s %d %s", prop, s, hexOrDash(p), carrier, st)
+			}
+		}
+		if batch {
+			arena = append(arena, bytes.Repeat([]byte{0xEE}, 16)...)[:len(arena)] // spare capacity behind the last record too
+			for i, sp := range spans {
+				enc, st := doEncodeOwned(out, origs[i], 0, arena[sp[0]:sp[1]])
+				if st == "ok" {
+					emit("%s enc %s %s %d %s", prop, s, hexOrDash(origs[i]), 0, hexOrDash(enc))
+					stream = append(stream, enc...)
+				} else {
+					emit("%s enc %s %s %d %s", prop, s, hexOrDash(origs[i]), 0, st)
+				}
 			}
 		}
 		if in == nil {
@@ -492,8 +532,14 @@ func runC04(prop string, seed int64, count int) {
 			finI = rng.Intn(3)
 		}
 		fname, ferr := finName(finI)
-		chunks := chunkings(rng, stream, rng.Intn(8))
-		outcome := doDecode(in, chunks, ferr, len(stream)+8)
-		emit("%s dec %s %s %s %s", prop, s, fname, chunksHex(chunks), outcome)
+		modes := []int{rng.Intn(8)}
+		if len(stream) <= 600 {
+			modes = []int{0, 1, 2, 3} // whole, byte by byte, two random fragmentations
+		}
+		for _, mode := range modes {
+			chunks := chunkings(rng, stream, mode)
+			outcome := doDecode(in, chunks, ferr, len(stream)+8)
+			emit("%s dec %s %s %s %s", prop, s, fname, chunksHex(chunks), outcome)
+		}
 	}
 }
